@@ -64,6 +64,11 @@ pub fn c08_check(sc: &SScenario) -> CaseResult {
     if let Some(m) = v.model_violations.first() {
         return fail(&v, m.clone());
     }
+    if let Some(m) = v.late_responses.first() {
+        if !v.tainted_any {
+            return fail(&v, format!("{m} (a response may be transmitted only if the handler finished before the request expired)"));
+        }
+    }
     let mut read_order = vec![];
     let mut nondup_read = 0usize;
     for (i, t) in v.tl.iter().enumerate() {
@@ -314,7 +319,7 @@ pub fn c06_profile() -> SProfile {
         w_budget: 5,
         id_fresh: 6,
         id_wide: 2,
-        id_dup: 0,
+        id_dup: 2,
         id_reuse: 1,
         dl_far: 2,
         dl_short: 12,
@@ -344,6 +349,11 @@ pub fn c06_check(sc: &SScenario) -> CaseResult {
     }
     if let Some(m) = v.spurious_abort() {
         return fail(&v, m);
+    }
+    if let Some(m) = v.late_responses.first() {
+        if !v.tainted_any {
+            return fail(&v, m.clone());
+        }
     }
     let mut classes: BTreeSet<&'static str> = BTreeSet::new();
     let mut expired_insts = vec![];
